@@ -2,7 +2,7 @@
 import ast
 
 from ..index import AnalysisError, attr_chain, norm, own_nodes
-from .common import resolved_text
+from .common import resolved_text, borrowed
 from ..flow import reaching_defs as reaching
 
 EXPLANATION = (
@@ -294,6 +294,23 @@ def rule_ring(ctx):
                               m.loc(n))
     if count < 2:
         raise AnalysisError("C18.RING: %d ring-index comparisons found, floor 2" % count)
+    # the purge loop looks at the entry it is about to drop: every read of the ring inside the loop is
+    # indexed by the loop's own cursor (the variable the loop condition compares with lastIndex)
+    pf = ctx.index.func("sessioncache:SessionCache._purge")
+    for w in [n for n in own_nodes(pf.node) if isinstance(n, ast.While)]:
+        cur = None
+        if isinstance(w.test, ast.Compare) and len(w.test.ops) == 1:
+            for a_, b_ in ((w.test.left, w.test.comparators[0]), (w.test.comparators[0], w.test.left)):
+                if attr_chain(b_) == "self.lastIndex" and isinstance(a_, ast.Name):
+                    cur = a_.id
+        if cur is None:
+            continue
+        for x in ast.walk(w):
+            if isinstance(x, ast.Subscript) and attr_chain(x.value) == "self.entriesList" and isinstance(x.ctx, ast.Load):
+                ctx.check(R, isinstance(x.slice, ast.Name) and x.slice.id == cur, pf.qname, x,
+                          "the purge loop walks the ring with `%s` but reads `%s`: the age (or key) of another entry "
+                          "decides whether this one is dropped" % (cur, norm(x)), pf.loc(x),
+                          what="_purge reads the entry under its cursor (`%s`)" % norm(x))
     # the purge loop must compare ages with maxAge and remove from the dict what it skips
     purge = ctx.index.func("sessioncache:SessionCache._purge")
     src = [norm(n) for n in own_nodes(purge.node)]
@@ -429,4 +446,6 @@ RULES = [
     ("C18.CLOCK", "quick", rule_clock),
     ("C18.LOCKSET", "quick", rule_lockset),
     ("C18.RING", "quick", rule_ring),
+    # other threads see a session in the shared cache only once its handshake is complete
+    ("C18.CACHE-AFTER-FINISHED", "quick", borrowed("c05", "rule_cache", "C05.CACHE", "C18.CACHE-AFTER-FINISHED")),
 ]
